@@ -328,3 +328,55 @@ def x6(ctx):
                           "one group is found in the index every later group is treated as present, and the filter is answered from an index that "
                           "lacks its keys" % (v, cu[0].lineno if cu else 0)))
     return obs
+
+
+@rule("C10", "X8", floor=2, kind="S",
+      desc="index extraction visits every component: the loops of ICalendarFile._get_index have no early exit "
+           "(a `return`/`break` in the generator's loop drops the values of all later components)")
+def x8(ctx):
+    from .common import loop_body_nodes
+    fi = ctx.own_method(ICAL + ".ICalendarFile", "_get_index")
+    cfg = ctx.cfg(fi)
+    loops = [n for n in cfg.nodes if n.kind == "for" or (n.kind == "test" and isinstance(n.ast, ast.Name) and any(l == "t" for _m, l in n.succ)
+                                                          and any(m.id < n.id or True for m, _l in n.pred))]
+    loops = [n for n in cfg.nodes if n.kind == "for"] + [n for n in cfg.nodes if n.kind == "test" and isinstance(n.ast, ast.Name) and n.ast.id == "todo"]
+    if len(loops) < 2:
+        raise AnalysisError("_get_index: component loops not found")
+    obs = []
+    for lp in loops:
+        body = loop_body_nodes(cfg, lp)
+        exits = [n for n in cfg.nodes if n.id in body and (n.kind == "return" or (n.kind == "stmt" and isinstance(n.ast, ast.Break)))]
+        obs.append(ctx.ob(not exits, fi.qualname, where(fi, lp), "loop `%s` has no early exit" % lp.text()[:40], "every element is visited",
+                          "`%s` inside the loop `%s` ends the extraction at the first element that takes this path: index values of later components "
+                          "are missing, so a resource whose matching component comes later disappears from index-based results"
+                          % (exits[0].text()[:30] if exits else "", lp.text()[:40])))
+    return obs
+
+
+@rule("C10", "X9", floor=1, kind="S",
+      desc="ComponentTimeRangeMatcher needs every property it reads: its index_keys yields one singleton group per "
+           "property (an OR-group would let find_present_keys accept an index that lacks some of them)")
+def x9(ctx):
+    fi = ctx.own_method(ICAL + ".ComponentTimeRangeMatcher", "index_keys")
+    obs = []
+    groups = []
+    for n in ast.walk(fi.node):
+        if isinstance(n, ast.Return) and n.value is not None:
+            v = n.value
+            if isinstance(v, ast.ListComp):
+                groups.append((n, v.elt))
+            elif isinstance(v, (ast.List, ast.Tuple)):
+                for e in v.elts:
+                    groups.append((n, e))
+            else:
+                raise AnalysisError("ComponentTimeRangeMatcher.index_keys returns an unmodelled expression: %s" % src(v))
+        if isinstance(n, ast.Yield) and n.value is not None:
+            groups.append((n, n.value))
+    if not groups:
+        raise AnalysisError("ComponentTimeRangeMatcher.index_keys: no key groups found")
+    bad = [(n, g) for n, g in groups if not (isinstance(g, (ast.List, ast.Tuple)) and len(g.elts) == 1)]
+    obs.append(ctx.ob(not bad, fi.qualname, fi.where, "every key group is a singleton", "%d group expression(s), all singletons" % len(groups),
+                      "index_keys yields the group `%s`: find_present_keys treats a group as satisfied when ONE of its keys is indexed, but match_indexes "
+                      "evaluates the time range from all of them - depending on which key an earlier query got indexed, events are evaluated without their "
+                      "DTEND/DURATION" % (src(bad[0][1]) if bad else "")))
+    return obs
